@@ -173,7 +173,7 @@ fn main() {
     let prop = Property {
         id: "C19",
         level: "exploration",
-        rule: "hand-built sessions (independent encoder) with full control of the sender clock stamped in EXT_TIME, the Expires value and the receiver clock of every push: receiver skew {0, +-3 s, +-60 s, +-1 h, +-1 y, -30 y, +11 y} x transit {0, 0.2 s} x FDT duration {5 s, 30 s, 1 h} x object emitted at Expires -10 s/-3 s/+3 s/+10 s/+1 h x sender time absent / SCT-High+SCT-Low / SCT-High only x expiry check on/off x FDT-before-object / object-before-FDT x with / without cleanup() calls around every push x instance renewed by a later one or not x FDT emitted after its own expiry x in-band/FDT-only FTI; oracle 1: delivered iff a complete instance listing the object is unexpired at the estimated sender instant of the delivery start (reference computed from the scenario, +-2 s around Expires never generated); oracle 2 (metamorphic): with SCT the writer log is identical for every skew; oracle 3: objects announced only by expired instances get no writer at all; a case is one scenario x all skews, non-trivial when at least one writer or FDT callback was observed; distinct = scenario parameters; variants 7/8: the carousel repeats the same instance one second after the object's packets (no close-object flag), with object_receive_once on and off",
+        rule: "hand-built sessions (independent encoder) with full control of the sender clock stamped in EXT_TIME, the Expires value and the receiver clock of every push: receiver skew {0, +-3 s, +-60 s, +-1 h, +-1 y, -30 y, +11 y} x transit {0, 0.2 s} x FDT duration {5 s, 30 s, 1 h} x object emitted at Expires -10 s/-3 s/+3 s/+10 s/+1 h x sender time absent / SCT-High+SCT-Low / SCT-High only x expiry check on/off x FDT-before-object / object-before-FDT x with / without cleanup() calls around every push x instance renewed by a later one or not x FDT emitted after its own expiry x in-band/FDT-only FTI; oracle 1: delivered iff a complete instance listing the object is unexpired at the estimated sender instant of the delivery start (reference computed from the scenario, +-2 s around Expires never generated); oracle 2 (metamorphic): with SCT the writer log is identical for every skew; oracle 3: objects announced only by expired instances get no writer at all; a case is one scenario x all skews, non-trivial when at least one writer or FDT callback was observed; distinct = scenario parameters; variants 7/8: the carousel repeats the same instance one second after the object's packets (no close-object flag), with object_receive_once on and off; single-instance and renewed-instance scenarios also as FLUTE v1 sessions (EXT_FDT version 1)",
         assumptions: vec![
             "an object already attached while its FDT was valid may finish later (the property constrains the start of delivery)".into(),
             "receiver clocks before 1970 or after the NTP era end are not generated".into(),
